@@ -226,6 +226,8 @@ func evalFP(f *Factory, t *Term, asg Assignment, memo map[uint32]uint64) uint64 
 		return a & (mask(t.w) >> 1)
 	case OpFNeg:
 		return a ^ (uint64(1) << (t.w - 1))
+	case OpFTrunc:
+		return fToBits(math.Trunc(bitsToF(a, t.w)), t.w)
 	case OpFAdd:
 		return fToBits(bitsToF(a, t.w)+bitsToF(b, t.w), t.w)
 	case OpFSub:
